@@ -3,7 +3,7 @@
    positive stay the Coq datatypes.  No Extract Constant directive is used. *)
 Require Extraction.
 Require Import ExtrOcamlBasic.
-From XtModel Require Import Base InputModel Utf8 UtfModel TranscodeModel FormatsModel IoModel DetectModel MsgpackModel.
+From XtModel Require Import Base InputModel Utf8 UtfModel TranscodeModel FormatsModel IoModel DetectModel CliModel MsgpackModel.
 
 Extraction Language OCaml.
 Extraction "model.ml"
@@ -12,4 +12,5 @@ Extraction "model.ml"
   detect encoder_new encoder_from_reader read_seq
   transcode
   translate_history translate_history_w
+  parse_args resolve_from extension_format run_cli
   next_value_size transcode_slice transcode_reader mm_output mm_ok msgpack_matches DEPTH_LIMIT.
